@@ -461,10 +461,9 @@ def gen_return_template(rng):
     if runs_iff is None:
         c, runs = rng.chance(1, 2), True
     else:
-        # a bare `return` inside an un-taken `if` that is the function's last expression was left out when this
-        # family was written: koto fell out of the function body there (repaired in /repo by 086fc95; the shape is
-        # exercised by C02's generator)
-        runs = rng.chance(3, 4) or (position == "last" and (not last_ok or bare))
+        # a bare `return` inside an un-taken `if` that is the function's last expression used to make koto fall out
+        # of the function body (repaired in /repo by 086fc95): the shape is generated here since the repair
+        runs = rng.chance(3, 4) or (position == "last" and not last_ok)
         c = runs_iff if runs else (not runs_iff)
     body = [l.replace("{S}", stmt) for l in wlines]
     if position == "statement" and wname != "plain":
